@@ -368,6 +368,11 @@ struct C20 : Scenario {
 		t.policy = (int) rng.below(3);
 		t.dir = "/w/t0";
 		gen_history(rng, t, p.members.size(), true, 28);
+		if (rng.chance(1, 3)) {
+			// input ending at an arbitrary point (inside a header, inside data): failure paths must release everything too
+			BuiltArchive a = build_archive(p);
+			t.trunc = (int64_t) rng.below(a.bytes.size() + 1);
+		}
 		p.tasks.push_back(t);
 		return p;
 	}
